@@ -170,6 +170,21 @@ FUNCTIONS = [
                       'buf.read_int': {'lean': 'read_int', 'args': [], 'arg_types': [], 'ret': ['int']}},
         'free': {}, 'out': ['cookie', 'kex_algs', 'key_algs', 'cli_enc', 'srv_enc', 'cli_mac', 'srv_mac', 'cli_compression', 'srv_compression',
                             'cli_languages', 'srv_languages', 'follows', 'unused']}),
+    ('pkm_write', 'ssh1_publickeymessage.py', 'SSH1_PublicKeyMessage.write', {'unit': 'Logic6', 'extract': 'proc', 'select': [('body',)],
+        'externals': {'wbuf.write': {'lean': 'write', 'args': [0], 'arg_types': ['bytes'], 'ret': []},
+                      'wbuf.write_int': {'lean': 'write_int', 'args': [0], 'arg_types': ['int'], 'ret': []},
+                      'wbuf.write_mpint1': {'lean': 'write_mpint1', 'args': [0], 'arg_types': ['int'], 'ret': []}},
+        'free': {'self.cookie': 'bytes', 'self.server_key_bits': 'int', 'self.server_key_public_exponent': 'int', 'self.server_key_public_modulus': 'int',
+                 'self.host_key_bits': 'int', 'self.host_key_public_exponent': 'int', 'self.host_key_public_modulus': 'int', 'self.protocol_flags': 'int',
+                 'self.supported_ciphers_mask': 'int', 'self.supported_authentications_mask': 'int'}, 'out': []}),
+    ('pkm_parse', 'ssh1_publickeymessage.py', 'SSH1_PublicKeyMessage.parse', {'unit': 'Logic6', 'extract': 'proc',
+        'select': [('range', ('assign', 'cookie'), ('assign', 'server_key_modulus')), ('range', ('assign', 'host_key_bits'), ('assign', 'host_key_modulus')),
+                   ('range', ('assign', 'pflags'), ('assign', 'amask'))],
+        'externals': {'buf.read': {'lean': 'read', 'args': [0], 'arg_types': ['int'], 'ret': ['bytes']},
+                      'buf.read_int': {'lean': 'read_int', 'args': [], 'arg_types': [], 'ret': ['int']},
+                      'buf.read_mpint1': {'lean': 'read_mpint1', 'args': [], 'arg_types': [], 'ret': ['int']}},
+        'free': {}, 'out': ['cookie', 'server_key_bits', 'server_key_exponent', 'server_key_modulus', 'host_key_bits', 'host_key_exponent', 'host_key_modulus',
+                            'pflags', 'cmask', 'amask']}),
     ('is_print_ascii_char', 'utils.py', 'Utils.is_print_ascii', {'unit': 'Logic2', 'extract': 'lambda', 'params': ['int']}),
     # candidates that are outside the subset (kept in the table so that the reason is reported on every run)
     ('ctoi', 'utils.py', 'Utils.ctoi', {}),
